@@ -11,9 +11,11 @@ line that does not fit; the parser then calls `log.Fatalf`, exactly as for every
 bytes (`is_prefix || len(line) > 100`), so the 4096 limit is not observable: `gbLine` is exact for lines
 of any length.  EMBL: the `bufio.Scanner` token buffer holds at most `bufio.MaxScanTokenSize` = 65536
 bytes; `Scan` returns false with `ErrTooLong` at the first line whose `\n` is not among the 65536 bytes
-that follow the line start (an unterminated last line of 65536 bytes or more likewise), and
-`EmblChunkParser` never looks at `scanner.Err()`: the rest of the CHUNK is silently ignored
-(`linesScanMax`, `parseEmbl = parseEmblMax maxScanTok`).
+that follow the line start (an unterminated last line of 65536 bytes or more likewise).  Repaired
+behaviour (patch `C01-embl-scanner-err`): `EmblChunkParser` returns `scanner.Err()` after the loop and
+`_ParseEmblFile` turns it into `log.Fatalf`: outcome `.fatal` (`scanErr`, `linesScanMax`,
+`parseEmbl = parseEmblMax maxScanTok`).  Before the repair the error was never read and the rest of the
+CHUNK was silently ignored (`parseEmblMaxSilent`, kept for the theorems that show why the repair matters).
 
 `strings.TrimSpace` is modelled exactly on bytes: the six ASCII white-space bytes and the UTF-8 encodings
 of the non-ASCII runes of `unicode.IsSpace` (U+0085, U+00A0, U+1680, U+2000…U+200A, U+2028, U+2029,
@@ -68,6 +70,13 @@ def linesScanMax (max : Nat) (data : Seq) : List Seq :=
     if ls.all (fun l => l.length < max) then
       ls.map dropCR ++ (if last.isEmpty || max ≤ last.length then [] else [dropCR last])
     else (ls.takeWhile (fun l => l.length < max)).map dropCR
+
+/-- `scanner.Err() != nil` after the loop (`bufio.ErrTooLong`; the chunk is an in-memory buffer, there is no
+other read error): the scan stopped at a `\n`-terminated line of `max` bytes or more, or at an unterminated
+last line of `max` bytes or more -/
+def scanErr (max : Nat) (data : Seq) : Bool :=
+  match splitNl data [] with
+  | (ls, last) => !(ls.all (fun l => l.length < max)) || (!last.isEmpty && max ≤ last.length)
 
 /-- every line (without its `\n`, the unterminated last one included) is shorter than `max`;
 `n` = number of bytes of the current line already seen -/
@@ -316,10 +325,16 @@ def emRun (withFeat : Bool) : EmSt → List Seq → EmSt × List Rec
       match emRun withFeat s' t with
       | (s'', rs) => (s'', r.toList ++ rs)
 
-/-- `EmblChunkParser(withFeatureTable)(source, chunk)` with a `max`-byte scanner buffer (no error path:
-`scanner.Err()` is not consulted) -/
-def parseEmblMax (max : Nat) (withFeat : Bool) (chunk : Seq) : Except Fatal (List Rec) :=
+/-- `EmblChunkParser` BEFORE the repair `C01-embl-scanner-err` (no error path: `scanner.Err()` was not
+consulted); not what the code does any more -/
+def parseEmblMaxSilent (max : Nat) (withFeat : Bool) (chunk : Seq) : Except Fatal (List Rec) :=
   .ok (emRun withFeat {} (linesScanMax max chunk)).2
+
+/-- `EmblChunkParser(withFeatureTable)(source, chunk)` with a `max`-byte scanner buffer, followed by the
+`if err != nil { log.Fatalf }` of `_ParseEmblFile`: a scan that ended with an error is fatal -/
+def parseEmblMax (max : Nat) (withFeat : Bool) (chunk : Seq) : Except Fatal (List Rec) :=
+  if scanErr max chunk then .error .fatal
+  else .ok (emRun withFeat {} (linesScanMax max chunk)).2
 
 /-- `EmblChunkParser(withFeatureTable)(source, chunk)` -/
 def parseEmbl (withFeat : Bool) (chunk : Seq) : Except Fatal (List Rec) :=
